@@ -155,6 +155,64 @@ mod __verif_c21 {
         std::mem::forget(a);
     }
 
+    /// MIN/MAX with the SHAPE concrete (which inputs are NULL, where the morsel boundary is, which update path) and only
+    /// the values symbolic, so that every Option<ScalarValue> the accumulators overwrite has a constant variant tag
+    fn min_max_shape(n0: bool, n1: bool, split: usize, slow: bool, is_min: bool) {
+        let v0: i64 = kani::any();
+        let v1: i64 = kani::any();
+        let x0 = if n0 { None } else { Some(v0) };
+        let x1 = if n1 { None } else { Some(v1) };
+        let func = if is_min { AggregateFunction::Min } else { AggregateFunction::Max };
+        let mut left = AccumulatorState::new(&func, &DataType::Int64);
+        let mut right = AccumulatorState::new(&func, &DataType::Int64);
+        if 0 < split { feed(&mut left, x0, slow) } else { feed(&mut right, x0, slow) }
+        if 1 < split { feed(&mut left, x1, slow) } else { feed(&mut right, x1, slow) }
+        left.merge(&right);
+        let got = left.finalize(&func);
+        let want = match (x0, x1) {
+            (None, None) => None,
+            (Some(a), None) | (None, Some(a)) => Some(a),
+            (Some(a), Some(b)) => Some(if is_min { a.min(b) } else { a.max(b) }),
+        };
+        match want {
+            None => assert!(matches!(got, ScalarValue::Null), "C21.min_max_of_no_non_null_is_null"),
+            Some(m) => assert!(matches!(got, ScalarValue::Int64(v) if v == m), "C21.min_max_is_extremum_of_non_null"),
+        }
+        std::mem::forget((left, right, got));
+    }
+
+    // @harness tiers=experimental timeout=2400
+    // @encodes physical::morsel_agg::AccumulatorState::update, physical::morsel_agg::AccumulatorState::update_i64, physical::morsel_agg::AccumulatorState::merge, physical::morsel_agg::AccumulatorState::finalize, physical::morsel_agg::compare_scalar_values
+    // @bounds MIN and MAX over 2 BIGINT inputs, all i64 values; every NULL pattern x morsel boundary (0,1,2) x update path iterated concretely (48 shapes)
+    // @oracle NULL iff no non-NULL input, else the integer minimum / maximum of the non-NULL inputs
+    #[kani::proof]
+    #[kani::unwind(2)]
+    fn min_max_two_inputs_all_shapes() {
+        let mut n = 0u32;
+        macro_rules! shapes {
+            ($n0:expr, $n1:expr) => {
+                min_max_shape($n0, $n1, 0, false, true);
+                min_max_shape($n0, $n1, 1, false, true);
+                min_max_shape($n0, $n1, 2, false, true);
+                min_max_shape($n0, $n1, 0, true, true);
+                min_max_shape($n0, $n1, 1, true, true);
+                min_max_shape($n0, $n1, 2, true, true);
+                min_max_shape($n0, $n1, 0, false, false);
+                min_max_shape($n0, $n1, 1, false, false);
+                min_max_shape($n0, $n1, 2, false, false);
+                min_max_shape($n0, $n1, 0, true, false);
+                min_max_shape($n0, $n1, 1, true, false);
+                min_max_shape($n0, $n1, 2, true, false);
+                n += 12;
+            };
+        }
+        shapes!(false, false);
+        shapes!(false, true);
+        shapes!(true, false);
+        shapes!(true, true);
+        kani::cover!(n == 48);
+    }
+
     // @harness tiers=quick,thorough
     // @encodes physical::morsel_agg::AggregationState::slot_has_data
     // @bounds keys of 0..=2 columns, each NULL or BIGINT; 0..=2 accumulators in their initial state (a group whose aggregated inputs were all NULL)
